@@ -18,6 +18,7 @@ import (
 	"encoding/base64"
 	"fmt"
 	"regexp"
+	"sort"
 	"strconv"
 	"strings"
 	"sync"
@@ -739,7 +740,15 @@ func MixArray(data []any) []any {
 
 func MixObject(data map[string]any) (map[string]any, error) {
 	mapper := make(map[string]any)
-	for key, item := range data {
+	// two paths may flatten to the same key (a_b and a -> b): the keys are
+	// walked in sorted order so that the same one wins every time
+	keys := make([]string, 0, len(data))
+	for key := range data {
+		keys = append(keys, key)
+	}
+	sort.Strings(keys)
+	for _, key := range keys {
+		item := data[key]
 		if innerMap, ok := item.(map[string]any); ok {
 			rs, err := MixObject(innerMap)
 			if err != nil {
